@@ -69,6 +69,34 @@ def wf(c):
     return bad
 
 
+def order_clause(names_before, t, n_nodes_before):
+    """names/order of ports and state elements after a transformation.  -> None (unchanged) | clause suffix.
+    One specific pattern gets its own clause (it is a recorded finding): the transformation removed nodes, ports are unchanged, and the only change is that
+    state elements moved *forward* past others -- what Node.remove's documented 'the node with the highest index takes the index of the removed node' does
+    when that node is a flip-flop or latch.  Anything else (lost / renamed / added elements, port order, any other permutation) is the generic clause."""
+    after = snames(t)
+    if after == names_before:
+        return None
+    n_io = len(t.io_nodes)
+    if len(t.nodes) < n_nodes_before and sorted(after) == sorted(names_before) and after[:n_io] == names_before[:n_io]:
+        sb, sa = names_before[n_io:], after[n_io:]
+        if len(set(sb)) == len(sb):
+            moved = {x for x in sb if sa.index(x) < sb.index(x)}
+            if moved and [x for x in sb if x not in moved] == [x for x in sa if x not in moved]:
+                return 'state-order:last-node-moved-into-freed-index'
+    return 'port-and-state-names'
+
+
+def ports_ok(c):
+    """every port listed in io_nodes is (still) a node of the circuit"""
+    for n in c.io_nodes:
+        if n is None:
+            continue
+        if not (0 <= n.index < len(c.nodes)) or c.nodes[n.index] is not n or n.circuit is not c:
+            return f'port {n.name} is listed in io_nodes but is not a node of the circuit any more'
+    return None
+
+
 KINDS = ['AND2', 'OR3', 'INV1', 'DFF', 'input', 'output', 'XOR2']
 
 
@@ -374,8 +402,11 @@ def check_resolve(c, lib):
     bad = wf(c)
     if bad:
         out.append(('resolve:wf', bad[0]))
-    if snames(c) != names_before:
-        out.append(('resolve:port-and-state-names', f'{names_before} -> {snames(c)}'))
+    if ports_ok(c):
+        out.append(('resolve:ports-stay-nodes', ports_ok(c)))
+    oc = order_clause(names_before, c, len(before.nodes))
+    if oc:
+        out.append((f'resolve:{oc}', f'{names_before} -> {snames(c)}'))
     if any(n.kind in lib.cells for n in c.nodes):
         out.append(('resolve:complete', 'library cells remain after resolving'))
     try:
@@ -583,9 +614,16 @@ def check_transforms(c, which=None):
         if bad:
             out.append((f'{nm}:wf', bad[0]))
             continue
-        if snames(t) != names:
-            out.append((f'{nm}:port-and-state-names', f'{names} -> {snames(t)}'))
-        d = equivalent(orig, t, EmptyLib, inputs)
+        if ports_ok(t):
+            out.append((f'{nm}:ports-stay-nodes', ports_ok(t)))
+            continue            # the port list points outside the circuit: the function oracle has nothing well-defined to walk
+        oc = order_clause(names, t, len(orig.nodes))
+        if oc:
+            out.append((f'{nm}:{oc}', f'{names} -> {snames(t)}'))
+        try:
+            d = equivalent(orig, t, EmptyLib, inputs)
+        except Exception as e:  # noqa
+            d = f'the netlist oracle cannot evaluate the transformed circuit: {e!r}'
         if d:
             out.append((f'{nm}:function', d))
         if nm in ('copy', 'pickle') and not (t == orig):
@@ -593,10 +631,11 @@ def check_transforms(c, which=None):
     return out
 
 
-def transforms_part(tier, seed):
+def transforms_part(tier, seed, skip=()):
+    """skip: clause suffixes that are not a matter of the calling property (C09 shares this part with C10 for the wf clause; the order of state elements is C10's)"""
     from . import logic_drv
     b = BoundedPart('C10-transformations', ['kyupy.circuit.Circuit.copy', '__getstate__/__setstate__', 'eliminate_1to1_forks', 'substitute'],
-                    'shared circuit space (incl. unconnected pins, DFF Q/QN, latches, fork chains) x {copy, pickle round trip, eliminate_1to1_forks, their composition}: wf, '
+                    'shared circuit space (incl. unconnected pins, DFF Q/QN, latches, fork chains; half of the seeded circuits also with a flip-flop created last, behind every fork) x {copy, pickle round trip, eliminate_1to1_forks, their composition}: wf, '
                     'names/order of ports and state elements, and function (z3 over symbolic inputs via the spec evaluator) preserved; synthetic implementation shapes '
                     '(multi-output, output read internally, ignored input, input with many readers, empty, constant, chain) substituted with every subset of connected pins; '
                     'distinct = (circuit, transformation)', f'exhaustive-small family (sampled) + {80 if tier == "quick" else 1500} seeded circuits')
@@ -613,6 +652,23 @@ def transforms_part(tier, seed):
         b.case((desc['nodes'], desc['lines']), len(c.forks) > 0, sample={'circuit': str(sig)})
         for clause, msg in check_transforms(c):
             b.violation(f'bounded:C10:{clause}', f'{clause} on {sig}: {msg}', 'bounded.graph_drv:run_transform', {'desc': desc}, function='kyupy.circuit.Circuit')
+        # the same circuit with a state element created last (behind every fork): a flip-flop fed by an existing signal, observed at a new port
+        if sig[0] == 'random' and len(c.forks) > 0 and sig[2] % 2 == 0:
+            from kyupy.circuit import Node, Line
+            c2 = G.build(desc)
+            src = next((f for f in c2.nodes if f.kind == '__fork__' and len(f.ins) == 1 and f.ins[0] is not None), None)
+            if src is not None:
+                o = Node(c2, 'late_o', 'output')
+                c2.io_nodes.append(o)
+                x = Node(c2, 'late_ff', 'DFF')
+                Line(c2, src, x)
+                Line(c2, x, o)
+                desc2 = G.describe(c2)
+                b.case((desc2['nodes'], desc2['lines']), True, sample={'circuit': str(sig) + ' + state element created last'})
+                for clause, msg in check_transforms(c2):
+                    if any(clause.endswith(x) for x in skip):
+                        continue
+                    b.violation(f'bounded:C10:{clause}', f'{clause} on {sig} + a flip-flop created last: {msg}', 'bounded.graph_drv:run_transform', {'desc': desc2}, function='kyupy.circuit.Circuit')
     lib = synthetic_impls()
     for kind, (impl, pins) in lib.cells.items():
         ins = [p for p, (i, o) in pins.items() if not o]
